@@ -142,14 +142,16 @@ def unreadable_status(ctx):
             ctx.notes.append("unreadable_status: no unprivileged user available here, scenario skipped")
             return
         os.chmod(os.path.join(d, "p", "d"), 0o744)
-        for test in (["-links", "1"], ["-inum", "+0"], ["-uid", "0"], ["-gid", "-5"], ["-size", "0"], ["-mtime", "+0"], ["-mmin", "-5"]):
+        for test in (["-links", "1"], ["-inum", "+0"], ["-uid", "0"], ["-gid", "-5"], ["-size", "0"], ["-size", "1k"], ["-size", "0c"], ["-mtime", "+0"], ["-mmin", "-5"]):
             p = subprocess.run(pre + [fw.FIND, "p", "(", test[0], test[1].lstrip("+-"), "-o", test[0], "+" + test[1].lstrip("+-"), "-o", test[0], "-" + test[1].lstrip("+-"), ")"],
                                stdout=subprocess.PIPE, stderr=subprocess.PIPE, cwd=d, env=xc.ENV, timeout=60)
-            ctx.count(("unreadable-status", test[0]), True, "unreadable-status")
+            ctx.count(("unreadable-status", test[0], test[1]), True, "unreadable-status")
             listed = b"p/d/f1" in p.stdout
-            if not listed and (p.returncode != 1 or b"p/d/f1" not in p.stderr):
-                ctx.violation("find p ( %s N -o %s +N -o %s -N ) as an unprivileged user, p/d listable but not searchable: p/d/f1 matches none of the three, "
-                              "exit %d, diagnostics %r" % (test[0], test[0], test[0], p.returncode, p.stderr[:100]),
+            # a value that cannot be measured is not 0 (nor anything else): none of the three forms is true for the entry, and that is diagnosed
+            if listed or p.returncode != 1 or b"p/d/f1" not in p.stderr:
+                ctx.violation("find p ( %s N -o %s +N -o %s -N ) as an unprivileged user, p/d listable but not searchable: p/d/f1 %s, "
+                              "exit %d, diagnostics %r" % (test[0], test[0], test[0], "is reported although its status cannot be read" if listed else "matches none of the three",
+                                                           p.returncode, p.stderr[:100]),
                               {"property": "C14", "kind": "unreadable-status", "test": test[0], "exit": p.returncode, "stdout": p.stdout.decode("utf-8", "replace"),
                                "stderr": p.stderr.decode("utf-8", "replace")[:300],
                                "explain": "trichotomy holds for every file whose value can be measured; a file whose status cannot be read is diagnosed, exit 1"})
